@@ -97,6 +97,9 @@ def backend_monitors(chk, hit, scenarios):
         honest = [p for p in sc["parties"] if p["honest"]]
         tag = "%s n=%d t=%d participants=%s deviation=%s by party of rank %d victims(ranks)=%s schedule=%s" % (
             sc["pkg"], sc["n"], sc["t"], sc.get("ids"), sc["deviation"], sc["deviant"], sc["victims"], sc.get("schedule", "random"))
+        if sc.get("reuse_group"):
+            tag += " [run %d on the SAME party objects, reuse group %d: replay scenarios of that group in order]" % (
+                sc["reuse_run"], sc["reuse_group"])
         if sc["stuck"] or any(p["verdict"] == "running" for p in honest):
             hit("dkg_stuck", sc, "a KeyGen did not return after its context was cancelled: " + tag)
             continue
@@ -239,6 +242,12 @@ def run(pid, tier, seed):
         honest_verdicts=dict(collections.Counter(p["verdict"] + ("/cancelled" if p["cancelled"] else "")
                                                  for sc in bsc for p in sc["parties"] if p["honest"])),
         deliveries=sum(sc["deliveries"] for sc in bsc),
+        # instance reuse: the same TBLS / TPS objects through consecutive Init + KeyGen runs; every run judged and replayed like a
+        # run on fresh objects (the model has no cross-run state)
+        instance_reuse=dict(
+            groups=len(set((sc["pkg"], sc["reuse_group"]) for sc in bsc if sc.get("reuse_group"))),
+            runs=dict(collections.Counter("%s run %d %s" % (sc["pkg"], sc["reuse_run"], sc["deviation"])
+                                          for sc in bsc if sc.get("reuse_group")))),
         # participant identifier sets that are not 1..n (gaps, not starting at 1, boundary values): shares are evaluated at the
         # RANK in the session order; signer subsets are verified through bls.Verifier (identifier -> rank)
         participant_sets_not_1_to_n=dict(
